@@ -12,7 +12,7 @@ import lang_common as LC
 
 IMPORTS = "Base Codebase Exclude GenScan FsScan"
 DIR_NAMES = ["src", "lib", "tests", "build", "node_modules", "venv", ".git", ".hidden", "a", "b", "pkg", "docs", "test", "dist", "x.d", "my tests"]
-FILE_STEMS = ["main", "util", "a", "b", "test", "build", ".hid", "x.min", "Makefile", "README"]
+FILE_STEMS = ["main", "util", "a", "b", "test", "build", ".hid", "x.min", "Makefile", "README", "BUILD", "SConstruct", "deploy", "run"]
 EXTS = [".py", ".js", ".c", ".java", ".ts", ".cs", ".cpp", ".txt", ".rb", "", ".md", ".h"]
 PATTERN_POOL = ["a", "b", "src", "docs", "pkg", "lib", "main.py", "util.js", "a/", "docs/", "pkg/", "main/", "*.py", "*.js", "*.d", "*.min",
                 "a/b", "src/lib", "src/main.py", "a/*", "src/*", "pkg/*", "lib/a", "my tests", "# comment", "", "x.d", "b/", "*.c"]
@@ -21,7 +21,7 @@ PATTERN_POOL = ["a", "b", "src", "docs", "pkg", "lib", "main.py", "util.js", "a/
 def content_for(lang_ext, n):
     """file text whose analysis is predictable: one function of length n (n = 0: no function)"""
     if n == 0:
-        return {"py": "x = 1\n"}.get(lang_ext, "int x;\n" if lang_ext in ("c", "cpp", "h") else "// nothing\n")
+        return {"py": "x = 1\n", "": "x = 1\n"}.get(lang_ext, "int x;\n" if lang_ext in ("c", "cpp", "h") else "// nothing\n")
     body = {
         "py": "def f():\n" + "    x = 1\n" * (n - 1),
         "js": "function f() {\n" + "  x = 1;\n" * (n - 2) + "}\n",
@@ -32,7 +32,7 @@ def content_for(lang_ext, n):
         "java": "class A {\n  void f() {\n" + "    x = 1;\n" * (n - 2) + "  }\n}\n",
         "cs": "class A {\n  void f() {\n" + "    x = 1;\n" * (n - 2) + "  }\n}\n",
     }
-    return body.get(lang_ext, "text " * n + "\n")
+    return body.get(lang_ext, body["py"])      # names without a known extension (BUILD, SConstruct are Python for Pygments)
 
 
 def gen_tree(rng, depth=0):
